@@ -1,5 +1,5 @@
 (* What a list of Update* calls does to a store whose primary keys are unique. *)
-From Coq Require Import Lia.
+From Coq Require Import Lia Permutation.
 From Coercion.Base Require Import Plan.
 From Coercion.Select Require Import Rows RowsProofs Select.
 
@@ -80,15 +80,16 @@ Proof.
   rewrite gapp_g_writes, gapp_gid. apply fold_wstep_none. intros w Hw. now apply H.
 Qed.
 
-(* writing every row of the rewritten in-memory plan [tm_plan M p] over the stored [p] stores it *)
-Lemma writes_self M p :
-  NoDup (map row_key (rows_plan p)) ->
-  tm_plan (g_writes (rows_plan (tm_plan M p)) gid) p = tm_plan M p.
+(* writing every row of the rewritten in-memory plan [tm_plan M p], in ANY order, over the stored [p]
+   stores it *)
+Lemma writes_self M p ws :
+  NoDup (map row_key ws) -> (forall w, In w ws <-> In w (rows_plan (tm_plan M p))) ->
+  tm_plan (g_writes ws gid) p = tm_plan M p.
 Proof.
-  intros Hnd. apply tm_plan_ext. intros r Hr.
+  intros Hnd Hiff. apply tm_plan_ext. intros r Hr.
   rewrite gapp_g_writes, gapp_gid. apply fold_wstep_hit.
-  - now rewrite keys_tm_plan.
-  - rewrite rows_tm_plan. now apply in_map.
+  - exact Hnd.
+  - apply Hiff. rewrite rows_tm_plan. now apply in_map.
   - apply gapp_key.
 Qed.
 
@@ -125,23 +126,24 @@ Lemma in_rows_store r s : In r (rows_store s) <-> exists q, In q s /\ In r (rows
 Proof. unfold rows_store. apply in_flat_map. Qed.
 
 (* ---- one aged plan: the store after its writes ---- *)
-Lemma persist_split M s1 p s2 :
+Lemma persist_split M s1 p s2 ws :
   keys_unique (s1 ++ p :: s2) ->
-  persist (s1 ++ p :: s2) (rows_plan (tm_plan M p)) = s1 ++ tm_plan M p :: s2.
+  NoDup (map row_key ws) -> (forall w, In w ws <-> In w (rows_plan (tm_plan M p))) ->
+  persist (s1 ++ p :: s2) ws = s1 ++ tm_plan M p :: s2.
 Proof.
-  unfold keys_unique. intros Hnd.
+  unfold keys_unique. intros Hnd Hws Hiff.
   change (p :: s2) with ([p] ++ s2) in Hnd.
   rewrite !rows_store_app, !map_app in Hnd.
   rewrite rows_store_single in Hnd.
-  assert (Hkw : forall w, In w (rows_plan (tm_plan M p)) -> In (row_key w) (map row_key (rows_plan p))).
-  { intros w Hw. rewrite <- (keys_tm_plan M p). now apply in_map. }
+  assert (Hkw : forall w, In w ws -> In (row_key w) (map row_key (rows_plan p))).
+  { intros w Hw. rewrite <- (keys_tm_plan M p). apply in_map. now apply Hiff. }
   rewrite persist_map0, map_app. cbn [map]. f_equal; [|f_equal].
   - rewrite <- (map_id s1) at 2. apply map_ext_in. intros q Hq. apply writes_other.
     intros w r Hw Hr Heq.
     apply (NoDup_app_disj _ _ Hnd (row_key r)).
     + apply in_map. apply in_rows_store. now exists q.
     + apply in_or_app. left. rewrite <- Heq. now apply Hkw.
-  - apply writes_self. apply NoDup_app_r in Hnd. now apply NoDup_app_l in Hnd.
+  - now apply writes_self.
   - rewrite <- (map_id s2) at 2. apply map_ext_in. intros q Hq. apply writes_other.
     intros w r Hw Hr Heq.
     apply NoDup_app_r in Hnd.
@@ -149,6 +151,13 @@ Proof.
     + now apply Hkw.
     + rewrite Heq. apply in_map. apply in_rows_store. now exists q.
 Qed.
+
+(* the plan row moved to the end of the list *)
+Lemma rotate_in {A} (a : A) l x : In x (l ++ [a]) <-> In x (a :: l).
+Proof. rewrite in_app_iff. simpl. tauto. Qed.
+
+Lemma rotate_nodup {A} (a : A) l : NoDup (a :: l) -> NoDup (l ++ [a]).
+Proof. apply Permutation_NoDup. apply Permutation_cons_append. Qed.
 
 Lemma keys_unique_pids s : keys_unique s -> NoDup (map pid s).
 Proof.
